@@ -124,7 +124,8 @@ func (r *grammarOptimizer) optimize(expr0 Expression) Visitor {
 
 				// Combine CharClassMatcher with CharClassMatcher
 				// [ab] / [cd] => [abcd]
-				case cok0 && cok1 && c0.IgnoreCase == c1.IgnoreCase && c0.Inverted == c1.Inverted:
+				// (the union of two inverted classes is not the inverted union of their members)
+				case cok0 && cok1 && c0.IgnoreCase == c1.IgnoreCase && !c0.Inverted && !c1.Inverted:
 					combined = true
 					c0.Chars = append(c0.Chars, c1.Chars...)
 					c0.Ranges = append(c0.Ranges, c1.Ranges...)
@@ -311,6 +312,12 @@ func cloneExpr(expr Expression) Expression {
 			Expr:  cloneExpr(expr.Expr),
 			Label: expr.Label,
 			p:     expr.p,
+		}
+	case *LitMatcher:
+		// literals are merged in place by the sequence optimisation: never share them
+		return &LitMatcher{
+			posValue:   expr.posValue,
+			IgnoreCase: expr.IgnoreCase,
 		}
 	case *RecoveryExpr:
 		return &RecoveryExpr{
